@@ -58,12 +58,32 @@ NEEDS.update({
  "R3_C12_2":"a release-profile build and ConstCtOption::expect on a none value",
  "R3_C12_3":"Odd::from_le_hex on a string with a non-hex character anywhere but the last two positions",
 })
+NEEDS.update({
+ "R4_C18_1":"a multi-limb DER magnitude whose length is not a multiple of the limb size (stale scratch buffer across limb chunks)",
+ "R4_C18_2":"a der::Reader that cannot lend slices (read_slice -> ErrorKind::Reader) and an INTEGER whose first octet is >= 0x80",
+ "R4_C18_3":"the RLP item 81 NN with NN in 01..7f (decode through Rlp::data() loses the indirection check)",
+ "R4_C16_1":"the # flag on Debug of an Int ({:#?})",
+ "R4_C16_2":"the # flag on a Wrapping<Uint> / Wrapping<Limb> (prefix dropped)",
+ "R4_C16_3":"a release-profile build and an over-long slice passed directly to Uint::from_le_slice",
+ "R4_C19_1":"a multi-limb modulus whose top significant limb is a power of two with a non-zero lower limb",
+ "R4_C19_2":"Int::try_random_bits_with_precision with a precision different from the type's width",
+ "R4_C19_3":"Limb::random_mod with modulus 1 (index underflow)",
+ "R4_C08_1":"from_const_params / From<&ConstMontyForm>, then MontyForm::new or inv() with the converted parameters (R^2 and R^3 swapped)",
+ "R4_C08_2":"two operands whose Montgomery representations add to exactly m (x + (-x), 1 + (m-1), (m-1)/2 + (m+1)/2)",
+ "R4_C08_3":"boxed lincomb_vartime with >= 2 products on a modulus with its top bit set",
+ "R4_C12_1":"NonZero<Uint>::from_u64 / From<NonZeroU64> with a multiple of 2^32",
+ "R4_C12_2":"BoxedUint::to_odd on an even multi-limb value with an odd higher limb",
+ "R4_C12_3":"a release-profile build and NonZero::<Limb>::new_unwrap(0)",
+ "R4_C11_1":"a multi-limb modulus just above a limb boundary and an RNG whose first accepted word equals the modulus' high word (never returns)",
+ "R4_C11_2":"a truncated hex record through a human-readable deserializer (debug build: assertion; release: wrong value)",
+ "R4_C11_3":"BoxedMontyForm::invert at exactly 1920-bit precision in the debug-assertion profile",
+})
 os.makedirs("/verif/seeded", exist_ok=True)
 rows=[]
 for name, needs in NEEDS.items():
     parts = name.split("_")
     prop, i = parts[-2], parts[-1]
-    src=f"/tmp/wt2_{prop}/seeded_out/{i}" if name.startswith("R2_") else (f"/tmp/wt3_{prop}/seeded_out/{i}" if name.startswith("R3_") else f"/tmp/wt_{prop}/seeded_out/{i}")
+    src=f"/tmp/wt2_{prop}/seeded_out/{i}" if name.startswith("R2_") else (f"/tmp/wt3_{prop}/seeded_out/{i}" if name.startswith("R3_") else (f"/tmp/wt4_{prop}/seeded_out/{i}" if name.startswith("R4_") else f"/tmp/wt_{prop}/seeded_out/{i}"))
     res_p=f"/tmp/seed_logs/{name}.json"
     if not (os.path.isdir(src) and os.path.exists(res_p)):
         if not os.path.exists(f"/verif/seeded/{name}/meta.json"): print("missing", name)
